@@ -942,3 +942,72 @@ func TestPropForeignForms(t *testing.T) {
 		}
 	})
 }
+
+// TestPropLongStream: a connection's decoder lives for thousands of commands
+// or responses. The same few generated values are sent again and again through
+// ONE encoder and decoded by ONE decoder: whatever state either accumulates
+// (depth counters, literal flags, sticky errors) must not change the outcome
+// of later lines.
+func TestPropLongStream(t *testing.T) {
+	rapid.Check(t, func(t *rapid.T) {
+		c := genConfig(t)
+		if c.clientToServer {
+			c.cont = "grant"
+		}
+		n := rapid.IntRange(1, 4).Draw(t, "nvals")
+		var vals []val
+		for i := 0; i < n; i++ {
+			if rapid.IntRange(0, 2).Draw(t, "emptylist") == 0 {
+				vals = append(vals, val{kind: "list"})
+			} else {
+				vals = append(vals, genVal(t, c, 2))
+			}
+		}
+		for _, v := range vals {
+			big := false
+			walk(v, func(x val) { big = big || len(x.s) > 600 })
+			if big {
+				return // keep the stream small: sizes are TestPropRoundTrip's business
+			}
+		}
+		lines := rapid.SampledFrom([]int{50, 400, 1100, 2300}).Draw(t, "lines")
+		var buf bytes.Buffer
+		e, _ := newEncoder(&buf, c)
+		for l := 0; l < lines; l++ {
+			for i, v := range vals {
+				if i > 0 {
+					e.SP()
+				}
+				encode(e, v)
+			}
+			if err := e.CRLF(); err != nil {
+				t.Fatalf("[%s] line %d of a stream repeating %v: encoder error %v", c, l+1, vals, err)
+			}
+		}
+		br := bufio.NewReader(bytes.NewReader(buf.Bytes()))
+		side := imapwire.ConnSideClient
+		if c.clientToServer {
+			side = imapwire.ConnSideServer
+		}
+		d := imapwire.NewDecoder(br, side)
+		d.CheckBufferedLiteralFunc = func(int64, bool) error { return nil }
+		for l := 0; l < lines; l++ {
+			for i, v := range vals {
+				if i > 0 && !d.ExpectSP() {
+					t.Fatalf("[%s] line %d of a stream repeating %v: no SP before item %d: %v", c, l+1, vals, i, d.Err())
+				}
+				if m := decode(d, v, c); m != "" {
+					t.Fatalf("[%s] line %d of a stream repeating %v: %s decoded differently than on line 1: %s", c, l+1, vals, clip(v.String()), m)
+				}
+			}
+			if !d.ExpectCRLF() {
+				t.Fatalf("[%s] line %d of a stream repeating %v: no CRLF: %v", c, l+1, vals, d.Err())
+			}
+		}
+		ev.Eval()
+		if lines >= 1100 {
+			ev.NonTrivial(fmt.Sprintf("stream:%s:%d:%v", c, lines, vals))
+		}
+		ev.Class(fmt.Sprintf("long-stream-lines=%d", lines))
+	})
+}
